@@ -23,9 +23,9 @@ var mkindGo = []string{"int", "int8", "uint", "float64", "string", "bool"}
 var mkindCoq = []string{"KInt", "KInt8", "KUint", "KFloat", "KString", "KBool"}
 
 type mty struct {
-	Tag  string // "B" basic, "N" named over basic, "S" struct, "L" slice of basic
-	K    mkind
-	N    int
+	Tag string // "B" basic, "N" named over basic, "S" struct, "L" slice of basic
+	K   mkind
+	N   int
 }
 
 func tB(k mkind) mty        { return mty{Tag: "B", K: k} }
@@ -175,12 +175,12 @@ func (e *mexpr) clone() *mexpr {
 }
 
 type mstmt struct {
-	Tag  string // Var Define Assign Call Print Return If For
-	N    int
-	T    mty
-	Es   []*mexpr // Var/Define: [rhs]; Assign: [lhs, rhs]; Call: args; Print/Return: values; If/For: [cond]
-	B1   []*mstmt
-	B2   []*mstmt
+	Tag string // Var Define Assign Call Print Return If For
+	N   int
+	T   mty
+	Es  []*mexpr // Var/Define: [rhs]; Assign: [lhs, rhs]; Call: args; Print/Return: values; If/For: [cond]
+	B1  []*mstmt
+	B2  []*mstmt
 }
 
 func (s *mstmt) clone() *mstmt {
@@ -275,9 +275,9 @@ type mfunc struct {
 }
 
 type mprog struct {
-	Named   []mkind   // named type N<i> over basic kind
-	Structs [][]mty   // struct S<i> with fields F0.. of these types
-	Funcs   []*mfunc  // f<i>; the last one is main (no params, no results)
+	Named   []mkind  // named type N<i> over basic kind
+	Structs [][]mty  // struct S<i> with fields F0.. of these types
+	Funcs   []*mfunc // f<i>; the last one is main (no params, no results)
 }
 
 func (p *mprog) clone() *mprog {
